@@ -2,6 +2,7 @@ package main
 
 import (
 	"fmt"
+	"go/token"
 	"sort"
 	"strings"
 
@@ -416,6 +417,12 @@ func runC16(c *Ctx, r *Report, tier string) {
 	// help: the value rendered as "(default: …)" — each of its origins is the literal under an empty
 	// mask, the mask itself unless it is "-", or nothing
 	nM := 0
+	// the value rendered after "(default: " — an operand of fmt.Sprintf or of a string concatenation
+	type defUse struct {
+		v  ssa.Value
+		at ssa.Instruction
+	}
+	var defUses []defUse
 	for _, in := range c.instrs(who, c.isCallTo("fmt.Sprintf")) {
 		call := in.(*ssa.Call)
 		if f, ok := constStr(call.Call.Args[0]); !ok || !strings.Contains(f, "default:") {
@@ -426,7 +433,22 @@ func runC16(c *Ctx, r *Report, tier string) {
 			r.Fail("MASK", wn, "default rendering", c.ipos(in), "the `(default: …)` format has no default operand")
 			continue
 		}
-		for _, o := range c.originsOf(es[1], in) {
+		defUses = append(defUses, defUse{es[1], in})
+	}
+	for _, in := range c.instrs(who, func(in ssa.Instruction) bool { bo, ok := in.(*ssa.BinOp); return ok && bo.Op == token.ADD }) {
+		bo := in.(*ssa.BinOp)
+		if l, ok := bo.X.(*ssa.BinOp); ok && l.Op == token.ADD {
+			if s, ok := constStr(l.Y); ok && strings.Contains(s, "default:") {
+				defUses = append(defUses, defUse{bo.Y, in})
+			}
+		}
+		if s, ok := constStr(bo.X); ok && strings.Contains(s, "default:") {
+			defUses = append(defUses, defUse{bo.Y, in})
+		}
+	}
+	for _, du := range defUses {
+		in := du.at
+		for _, o := range c.originsOf(du.v, in) {
 			switch {
 			case o.Term == "Option.defaultLiteral(P2)" || strings.Contains(o.Term, "Option.Default(P2)"):
 				nM++
